@@ -4,6 +4,7 @@ CONSTANTS
   NCalls = 1
   Sections <- Sec4
   MaxPreempt = 9
+  MinListAtFork = 0
   Forkers <- NoFork
   AtFork = "locked"
   Defects <- DefNoUnreg
